@@ -19,7 +19,7 @@ def subchecks(c):
     if binary is None:
         return False
     n, steps = (40, 40) if c.tier == "quick" else (300, 60)
-    S.walked(c, c.pid, binary, "c12sm", n, steps, CLAUSES, classify)
+    S.walked(c, c.pid, binary, "c12sm", n, steps, CLAUSES, classify, stale=True)
     S.run_scenarios(c, binary, "c12sm", CLAUSES, classify)
     if not proved and not c.violations:
         b = getattr(c, "broken", {"file": "?", "log": ""})
